@@ -11,6 +11,10 @@ void set_fatal_ctx(const Ctx &c, const Op &op) {
                          c.site.empty() ? op_name(op.kind) : c.site.c_str());
 }
 
+void update_fatal_ctx(const Ctx &c) {
+    simrt::fatal_context("prop=C%02d i=%llu runseed=%llu step=%d site=%s", c.prop, (unsigned long long)g_run_index, (unsigned long long)c.plan->k.seed, c.step, c.site.c_str());
+}
+
 static bool exec_op(Ctx &c, const Op &op) {
     return exec_buf(c, op) || exec_ss(c, op) || exec_str_a(c, op) || exec_str_b(c, op);
 }
@@ -27,7 +31,7 @@ static bool nontrivial_rule(const Ctx &c, const Stats &rs) {
     }
 }
 
-RunResult run_plan(const Plan &plan, Stats *total) {
+RunResult run_plan(const Plan &plan, Stats *total, bool want_allocs) {
     RunResult rr;
     Stats rs;
     Ctx c; c.plan = &plan; c.prop = plan.k.prop; c.stats = &rs;
@@ -35,10 +39,11 @@ RunResult run_plan(const Plan &plan, Stats *total) {
     simrt::heap_begin_run((simrt::HeapPolicy)(plan.k.heap_policy & 1), (uint8_t)plan.k.fill_fresh, (uint8_t)plan.k.fill_freed);
     for (size_t i = 0; i < plan.ops.size(); i++) {
         const Op &op = plan.ops[i];
-        c.step = (int)i; c.skipped = false; c.budget_bytes = 0; c.site = op_name(op.kind);
+        c.step = (int)i; c.skipped = false; c.budget_bytes = 0; c.site = op_name(op.kind); c.op_allocs = 0;
         set_fatal_ctx(c, op);
         if (!exec_op(c, op)) { set_viol(c, "internal", std::string("no executor for op ") + op_name(op.kind)); break; }
         if (!c.skipped) { rs.ops++; }
+        if (want_allocs) { rr.allocs.push_back(c.op_allocs); rr.skipped.push_back(c.skipped ? 1 : 0); }
         set_fatal_ctx(c, op);
         check_all(c);
         if (c.viol.set) { rr.step = (int)i; break; }
